@@ -63,6 +63,13 @@ def cases(tier, r):
     ops = argstore.gen_ops(r, sig, fresh, r.randint(0, 6))
     yield 'random', {'p': 'argstore', 'sig': sig, 'args': args, 'kwargs': kwargs, 'ops': ops,
                      'species': r.choice(SPECIES)}
+  yield from nested_cases(tier, r)
+
+
+def nested_cases(tier, r):
+  for _ in range(400 if tier == 'quick' else 6000):
+    yield 'nested', {'graph': True, 'seed': r.getrandbits(48), 'size': r.choice([3, 6, 10]),
+                     'positional': True, 'nt_bias': r.choice([0.0, 0.3, 0.6])}
 
 
 def widen(tier, r):
@@ -76,12 +83,20 @@ def widen(tier, r):
 
 
 def execute(case):
+  if case.get('graph'):
+    # nested Buildables inside lists, tuples, dicts and named tuples: compare fdl.build with
+    # the direct evaluation (harness/graphs.py::ref_build); the model side is Graph.build
+    from harness.props import C02
+    return C02.execute(case)
   real, cfg = argstore.run_real(case, species=case.get('species', 'function'))
   req = {k: case[k] for k in ('p', 'sig', 'args', 'kwargs', 'ops')}
   return real, req
 
 
 def compare(real, model):
+  if 'ref_canon' in real:
+    from harness.props import C02
+    return C02.compare(real, model)
   return argstore.diff_fields(real, model, FIELDS)
 
 
@@ -118,6 +133,16 @@ def expected_binding(sig, state):
 
 
 def oracle(case, real):
+  if 'ref_canon' in real:
+    rb, ref = real['build'], real['ref_canon']
+    if 'raised' in rb or (isinstance(ref, dict) and 'raised' in ref):
+      if ('raised' in rb) != (isinstance(ref, dict) and 'raised' in ref):
+        return {'what': 'build raised / did not raise unlike the direct evaluation', 'build': rb, 'ref': ref}
+      return None
+    if real.get('skeleton_equal') is False:
+      return {'what': 'nested Buildables: built value differs from the direct evaluation',
+              'built': rb['canon'], 'reference': ref}
+    return None
   if real['init'] == 'err':
     return None
   states = [('init', real['init'])] + [(f'step{i}', s['state']) for i, s in enumerate(real['steps'])]
@@ -132,6 +157,8 @@ def oracle(case, real):
 
 
 def nontrivial(case, real):
+  if 'ref_canon' in real:
+    return ('nested', case['seed']) if 'raised' not in real['build'] else None
   if real['init'] == 'err':
     return None
   last = real['steps'][-1]['state'] if real['steps'] else real['init']
@@ -143,7 +170,7 @@ def nontrivial(case, real):
 def run(tier):
   return family.run_check(
       'C01', tier, lean_module='C01', cases=cases, execute=execute, compare=compare,
-      oracle=oracle, nontrivial=nontrivial, widen=widen, normalise_model=argstore.norm_model,
+      oracle=oracle, nontrivial=nontrivial, widen=widen, normalise_model=lambda m: argstore.norm_model(m) if 'init' in m else m,
       time_budget=150 if tier == 'quick' else 1500,
       extra_coverage={'rule': 'every signature shape with <=3 (quick) / <=4 (thorough) named '
                       'parameters x every subset of parameters set (by index / attribute edits, '
